@@ -2,20 +2,13 @@
 import json, os
 V = os.path.dirname(os.path.dirname(os.path.abspath(__file__)))
 
-CLAIMS = {
- 'C05': dict(
-   technique='TLC enumerates well-typed IR trees (IRGen.tla); miasmX simplifies them; TLC trace spec T_C05.tla evaluates both trees with the TLA+ IR semantics (IR.tla Eval over BV.tla)',
-   text='Model-based: trees are the reachable states of the typed stack machine IRGen.tla (all 8-bit two-identifier trees up to 4 (quick) / 5 (thorough) nodes over 12 binary operators, unary minus and parity; all 5-node trees over rule-relevant operator pairs; multi-width trees with slices, compositions, conditions, memory; seeded random deeper trees). Each (input, simplified) pair is a trace record judged by TLC: termination (no timeout/exception), well-typedness, width, and value equality under boundary grids (all 2^16 valuations for trees <= 3 nodes in thorough) with byte-addressed memory. Failing records are reduced to their minimal failing sub-tree by re-running the pipeline. Bounded, not a proof.',
-   design='5 C05', note='Trusted: TLC, BV.tla limb arithmetic (self-checked against native integers by BVSelf.tla), vf/expr_json.py projection. Uninterpreted operators are given congruence-only semantics.'),
- 'C14': dict(
-   technique='TLA+ spec ModInt.tla as oracle; TLC enumerates the operand space (ModIntSpace.tla), miasmX results validated as traces by TLC (T_C14.tla)',
-   text='Model-based: the reachable states of ModIntSpace.tla are the cases (all 2^16 operand pairs at 8 bits for every operator and '
-        'signedness pair incl. int-mixed and reflected forms; boundary operands at every width/width pair incl. plain ints). Every observed '
-        'result (class, stored value, range) is judged by TLC against ModInt.tla (exact integer arithmetic reduced mod 2^n; limb path checked '
-        'against a native-integer definition by ModIntSelf.tla). Exhaustive at 8 bits, boundary-complete elsewhere; not a proof for wide operands.',
-   design='5 C14', note='Trusted: TLC, CommunityModules Json/Bitwise, the 30-line encoder of Python results (vf/c14.py enc/cenc); Python int // supplies an untrusted, spec-verified quotient witness for %. Shift counts > 70000 and exponents > 300 not explored.'),
-}
+def load_claims():
+    """one file per property: vf/claims/Cxx.json with keys technique, text, design, note"""
+    d = os.path.join(V, 'vf', 'claims')
+    return {f[:-5]: json.load(open(os.path.join(d, f))) for f in sorted(os.listdir(d)) if f.endswith('.json')}
 
+
+CLAIMS = load_claims()
 PENDING = 'check not built yet (framework under construction; see DESIGN.md section 9 build order)'
 
 
